@@ -276,8 +276,8 @@ TypesC09 == { <<TItem, TMyErr, TColor, TOrder, TLine, TLevel, TCode, TDup>> }
 RuleList == << "required", "omitempty", "email", "uuid", "ip", "ipv4", "ipv6", "hostname", "date", "datetime", "gt=1", "gte=2", "lt=9", "lte=8", "min=1", "max=7", "len=5",
                "pattern=^a+$", "minItems=1", "maxItems=3", "uniqueItems", "enum=a|b", "oneof=a b", "unknownrule=3", "gte=2,lte=16", "required,min=3,max=40", "gt=0,lt=10,required", "enum=1|2", "oneof=1 2", "enum=a", "oneof=red blue",
                "oneof=required optional", "ne=required", "min=1,oneof=xrequired y",
-               "oneof=0.1 0.25", "enum=0.3|1.5" >>      \* (0.1 and 0.3 have no exact binary32 representation)
-RuleFieldTypes == {"string", "*string", "int", "uint8", "float64", "float32", "bool", "[]string", "[]int", "p1.Color", "map[string]int", "time.Time", "[]byte"}
+               "oneof=0.1 0.25", "enum=0.3|1.5", "dive,oneof=red", "dive,min=2" >>      \* (0.1 and 0.3 have no exact binary32 representation)
+RuleFieldTypes == {"string", "*string", "int", "uint8", "float64", "float32", "bool", "[]string", "[]int", "p1.Color", "[]p1.Color", "map[string]int", "time.Time", "[]byte"}
 RulesFields(ft) == [i \in DOMAIN RuleList |-> Fld("F" \o ToString(i), ft, "f" \o ToString(i), RuleList[i])]
 TRules(ft) == Ty("p1", "Rules", "struct", "", RulesFields(ft), <<>>)
 RuleTypeSets == { <<TItem, TMyErr, TColor, TRules(ft)>> : ft \in RuleFieldTypes }
